@@ -15,7 +15,7 @@ pub open spec fn absr(x: real) -> real { if x < 0real { -x } else { x } }
 pub open spec fn rnd(z: real, r: real) -> bool { absr(r - z) <= 0.00000006real * absr(z) + 0.000000000000000000000000000000000000000000002real }   // r is a rounding of z
 // bound on one fast_mul_add: |r - (ab + c)| <= U*(2.0000001|ab| + |c|) + 3 ETA   (implied by the fused AND by the unfused evaluation: lemma below)
 pub open spec fn fma_bound(ab: real, c: real, r: real) -> bool { absr(r - (ab + c)) <= 0.00000006real * (2.0000001real * absr(ab) + absr(c)) + 3real * 0.000000000000000000000000000000000000000000002real }
-pub trait Rounded: Copy + FastMulAdd + Mul<Self, Output = Self> + MulSpec<Self> {
+pub trait Rounded: Copy + FastMulAdd + Mul<Self, Output = Self> + MulSpec<Self> + Div<Self, Output = Self> + DivSpec<Self> + Neg<Output = Self> + NegSpec {
     spec fn val(self) -> real;
     proof fn ax()
         ensures
@@ -24,6 +24,12 @@ pub trait Rounded: Copy + FastMulAdd + Mul<Self, Output = Self> + MulSpec<Self> 
             forall|a: Self, b: Self| rnd(a.val() * b.val(), #[trigger] a.mul_spec(b).val()),
             forall|a: Self, b: Self, c: Self| #[trigger] a.fma_req(b, c),
             forall|a: Self, b: Self, c: Self| fma_bound(a.val() * b.val(), c.val(), #[trigger] a.fma_spec(b, c).val()),
+            // unary minus flips the sign bit: exact.  Division: one rounding of the exact quotient (divisor != 0)
+            Self::obeys_neg_spec(), Self::obeys_div_spec(),
+            forall|a: Self| #[trigger] a.neg_req(),
+            forall|a: Self| #[trigger] a.neg_spec().val() == -a.val(),
+            forall|a: Self, b: Self| #[trigger] a.div_req(b),
+            forall|a: Self, b: Self| b.val() != 0real ==> rnd(a.val() / b.val(), #[trigger] a.div_spec(b).val()),
     ;
 }
 // justification of fma_bound from the rounding model: unfused  r = fl(fl(ab) + c)  and fused  r = fl(ab + c)
